@@ -87,7 +87,11 @@ def plan(tier, seed):
     return shards
 
 
-SWEEP_SPEC = wbspec.spec(wbspec.sheet('S1', {'A2': 1, 'B2': 2, **{c: f'=A2{op}B2' for op, c in CELLS.items()}}))
+# rows 3-6: the SAME cell on both sides, spelled in different ways (reflexivity: = <= >= hold, < > <> do not, whatever the value)
+SELF_FORMS = {3: 'A2{op}A2', 4: '$A$2{op}A2', 5: 'S1!A2{op}A$2', 6: "B2{op}'S1'!$B$2"}
+SELF_CELLS = {(row, op): f'{c[0]}{row}' for row in SELF_FORMS for op, c in CELLS.items()}
+SWEEP_SPEC = wbspec.spec(wbspec.sheet('S1', {'A2': 1, 'B2': 2, **{c: f'=A2{op}B2' for op, c in CELLS.items()},
+                                             **{SELF_CELLS[(row, op)]: '=' + form.format(op=op) for row, form in SELF_FORMS.items() for op in OPS}}))
 
 
 def _as_bool(out):
@@ -172,6 +176,15 @@ def run_override(shard, ctx):
             if res_ba is None and i != j:
                 res_ba, _ = observe(j, i)
             bad += check_pair_laws(r, kind, a, b, res, res_ba, case)
+            if (i + j) % 3 == 0 or i == j:
+                # the same cell on both sides of the operator, on the same instance, for this pair of values
+                keys = sorted(SELF_CELLS)
+                so = book.values(0, [SELF_CELLS[k] for k in keys], [(0, 'A2', vals[i]), (0, 'B2', vals[j])])
+                r.ev(len(keys))
+                r.count('reflexive_checks', len(keys))
+                for (row, op), o in zip(keys, so):
+                    if _as_bool(o) is not EQ_ROW[op] and not (kind == 'text' and nan_text(vals[i] if row < 6 else vals[j])):
+                        bad.append(f'reflexivity: {SELF_FORMS[row].format(op=op)} gives {o.brief()}')
             if bad:
                 report(r, ID, classify(kind, a, b, bad), case, {op: res[op] for op in OPS}, bad[:4], monitor='compare-laws')
             if i != j:
